@@ -22,8 +22,8 @@ EXPLANATION = 'explicit-state exploration of the implementation; every history i
 LAT_Q = [0.0, 0.25, 0.5, 0.75, 1.0]
 LAT_T = [0.0, 0.125, 0.25, 0.5, 0.75, 1.0]
 SLOPE_CYCLE = [-10.0, 0.0, 25.0]
-INS_B = [0.0, 0.1, 0.25, 0.3, 0.5, 0.75, 0.9, 1.0, 1.2]
-INS_S = [-3.0, 40.0]
+INS_B = [0.0, 0.1, 0.25, 0.5, 0.75, 1.0, 1.2]          # equal-first, between, equal, equal-last, above-last
+INS_S = [-3.0, 0.0, 40.0]                            # a flat (zero-slope) segment is a legitimate slope
 TEMPS = [300.0, 1000.0]
 
 PLANNED_TAGS = ['insert:below-first-interior', 'insert:between', 'insert:equal', 'insert:equal-last',
@@ -34,14 +34,14 @@ PLANNED_TAGS = ['insert:below-first-interior', 'insert:between', 'insert:equal',
 def bounds(tier):
     return dict(init_breakpoints='1-3 of %s' % LAT_Q if tier == 'quick' else '1-6 of %s' % LAT_T,
                 insert_breakpoints=INS_B, insert_slopes=INS_S,
-                depth=3 if tier == 'quick' else '4 (5 from initial lists of <= 2 breakpoints)', temperatures=TEMPS)
+                depth='3 from initial lists of <= 2 breakpoints, 2 from longer ones' if tier == 'quick' else '4 (5 from initial lists of <= 2 breakpoints)', temperatures=TEMPS)
 
 
 DEPTH_T = 4
 
 
 INT_SLOPE_CYCLE = [3, -12, 8]          # whole-number slopes given as Python ints (integer-typed buffers truncate)
-INT_INS_S = [-3, 40]
+INT_INS_S = [-3, 0, 40]
 INT_LAT = [0.0, 0.3, 0.7]
 
 
@@ -69,9 +69,12 @@ def _int_inits():
 def shards(tier):
     # thorough: depth 4 from every initial list, depth 5 from the lists with one or two breakpoints (a depth-5
     # BFS from a six-breakpoint list alone costs about an hour of CPU)
-    out = [dict(init=i, depth=3 if tier == 'quick' else (DEPTH_T + 1 if len(i['intervals']) <= 2 else DEPTH_T))
+    out = [dict(init=i, depth=(3 if len(i['intervals']) <= 2 else 2) if tier == 'quick' else (DEPTH_T + 1 if len(i['intervals']) <= 2 else DEPTH_T))
            for i in _inits(tier)]
     out += [dict(init=i, depth=2 if tier == 'quick' else 4) for i in _int_inits()]
+    # the same histories with the single evaluation placed after the first edit instead of after construction
+    out += [dict(init=i, depth=3 if tier == 'quick' else 4, probe_at=1) for i in _inits(tier)
+            if len(i['intervals']) <= (2 if tier == 'quick' else 3)]
     out += [dict(kind='shared', n=n) for n in (1, 2, 3)]
     return out
 
@@ -263,11 +266,18 @@ def _replay(case, ctx, check_all):
     obj = _build(case['init'])
     ctx.trace()
     ops = case['ops']
+    probe_at = case.get('probe_at', 0)      # the object is evaluated once at this point of the history, then
+    #                                         edited without evaluation until the end (values memoised at an
+    #                                         evaluation must not survive later edits)
     if check_all or not ops:
         if not check_state(obj, ctx, _sig(None, obj), case):
             return None
+    elif probe_at == 0:
+        _probe(obj)
     for k, op in enumerate(ops):
         last = (k == len(ops) - 1)
+        if not check_all and not last and probe_at == k and k > 0:
+            _probe(obj)
         sig = _sig(op, obj)
         if check_all or last:
             new, exp = apply_op(obj, op, ctx, sig, case)
@@ -281,6 +291,12 @@ def _replay(case, ctx, check_all):
         else:
             obj = _silent(obj, op)
     return obj
+
+
+def _probe(obj):
+    for x in (0.05, 0.2, 0.6, 1.1):
+        obj.get_UoRT(x=x, T=300.)
+        obj.get_HoRT(x=x, T=300.)
 
 
 def _silent(obj, op):
@@ -351,7 +367,8 @@ def run_shard(shard, ctx):
     init, depth = shard['init'], shard['depth']
     if init.get('ints'):
         ctx.tag('slopes:int-typed')
-    root = dict(init=init, ops=[])
+    probe_at = shard.get('probe_at', 0)
+    root = dict(init=init, ops=[], probe_at=probe_at)
     obj = _replay(root, ctx, check_all=True)
     if obj is None:
         return
@@ -364,7 +381,7 @@ def run_shard(shard, ctx):
         for hist in frontier:
             base = _replay_silent(init, hist)
             for op in _ops_for(base, ints=bool(init.get('ints'))):
-                case = dict(init=init, ops=hist + [op])
+                case = dict(init=init, ops=hist + [op], probe_at=probe_at)
 
                 def one(case_, ctx_):
                     return None
